@@ -418,3 +418,11 @@ package cisco
 // emitted for the pair afterwards (changed references) uses these values.
 //vc:func (*State).makeEqual
 //vc:  assert[C01,C02] at "s.diffCmds(a.sub, b.sub, byParsedCmd)" @netspocCommandTakesDeviceIdentity a.needed && b.ready && b.name == a.name && b.seq == a.seq
+
+// convObjectGroup (closure 4 of postprocessACLParts): the two words
+// "object-group NAME" are consumed on ASA (name becomes a reference) and on IOS
+// (left as text) alike, so that the normalisation of the words behind them
+// (named ports, host and any masks, log level) goes on.
+//vc:func postprocessACLParts$4
+//vc:  inline
+//vc:  ensures[C01,C02] @objectGroupWordsConsumed len(parts) == ite(old(len(parts)) >= 2, old(len(parts)) - 2, 0)
